@@ -57,9 +57,9 @@ CHECKS = {
    note="Thinly served by TLA+ (one concrete trace): the byte comparison is by SHA-256 in the harness, the specification contributes ordering / coverage / provenance obligations and the verdict. Trusted: Go toolchain, gofmt. samples/*.fo not in filelist.txt are outside the property (gen_noarg_funcall.go is stale on the pinned tree)."),
  "C16": dict(
    category="model_checking", design_ref="4.16", engine="FoDriver",
-   technique="TLA+ machine of the fc driver (FoDriver.tla) model-checked for safety and termination; fault vectors, a mutation campaign and scanner-critical buffers run through the real binary; black-box observations validated by TLC, which infers the unlogged read/parse/write outcomes (FoDriverTrace.tla)",
+   technique="TLA+ machine of the fc driver (FoDriver.tla) model-checked for safety and termination, and character-level model of the scanners (FoLex.tla) model-checked for in-bounds termination on all short buffers; fault vectors, a mutation campaign and scanner-critical buffers run through the real binary, black-box observations validated by TLC, which infers the unlogged read/parse/write outcomes (FoDriverTrace.tla); scanTokenAt replayed white-box on every position of every short buffer and validated against FoLex (FoLexTrace.tla)",
    text="The driver machine (announce, read, parse, write per argument, exit) is model-checked: exit 0 implies every requested file written, a failure is clean (diagnostic, nothing for the offending and later files), every behaviour terminates. Every run of the real binary - fault vectors (missing input, directory, unwritable destination, syntax error, infinite type, .foi), thousands of mutants of valid programs (truncation at every offset, token deletion/duplication/swap, indentation damage, unterminated constructs, stray bytes), self-referential / ill-typed / extreme definitions and short buffers over the scanner-critical alphabet - is observed black-box and accepted only if some behaviour of the machine explains it; hangs (20 s), Go runtime fatal errors and silent failures are rejections.",
-   note="Trusted: the 20 s time-out as non-termination on inputs of this size; stderr classification of Go fatal errors; a gen file counts as complete when it exists and is non-empty. The character-level scanner model (FoLex) of the design is not built yet; scanner loops are exercised through the binary only."),
+   note="Trusted: the 20 s time-out as non-termination on inputs of this size; stderr classification of Go fatal errors; a gen file counts as complete when it exists and is non-empty. The white-box scanner driver is a test file dropped into the scratch copy of fc/ (skipped, with a note in the evidence, if fc's internals no longer match); disagreement between FoLex and the code on token types is reported as information only, the verdicts are hang / out-of-bounds / no progress."),
  "C05": dict(
    category="model_checking", design_ref="4.5", engine="FoDictOrder",
    technique="TLA+ model of enumeration-order choice points and of fc's consumers of an enumeration (FoDictOrder.tla); TLC decides which consumers are order-independent and enumerates the schedules with a bounded number of perturbed calls from the recorded call sequence; each schedule is replayed on the real fc through the guarded dict hook; results validated by TLC (FoDictOrderTrace.tla)",
